@@ -25,6 +25,8 @@ JIT_LIMIT = 120       # ms; a run during which a 5 ms sleep overshot by more tha
 TICK = 25             # ms per tick of the L2 model (GMinT = 4)
 
 ASSUME = [
+    "scripts that cannot be observed in three attempts (scheduling delays above the limit while they ran) are left unjudged and counted in the "
+    "evidence (scripts_not_judged); more than a third of the plan unjudged ends the check without verdict",
     "real time, not a virtual clock: the sweep over exit times and deadline distances is bounded (the exhaustive part is the Deadline.tla "
     "model); a miss counts only when it reproduces (laws a slow machine cannot break: once more in 3 + 18..72 re-runs, the later ones spread "
     "+-3 ms around the exit time; laws bounding a delay by the slack: in all 3 re-runs of a round), otherwise it is reported as transient / "
@@ -453,8 +455,14 @@ def check(ctx):
         log("UNREPRODUCED observation (seen once, not again in %d re-runs, so not an alarm - but a slow machine does not explain it): %s %s helper log: %s"
             % (t["reruns"], t["laws"], json.dumps(t["case"], sort_keys=True), t["first_observation"].get("clog")))
     if unjudged and not violations:
-        raise NoVerdict("machine too busy: scheduling delays above %d ms (or stalled / never started helpers) in 3 attempts for %d scripts, e.g. %s"
-                        % (JIT_LIMIT, len(unjudged), json.dumps(unjudged[0], sort_keys=True)))
+        # scripts that could not be observed in three attempts (the machine was too busy while they ran, or their helper never
+        # got as far as its first stamp) are not judged and are named in the evidence; when they are more than a third of
+        # the plan the sweep says too little to end with a verdict
+        if 3 * len(unjudged) > sum(plan_sizes):
+            raise NoVerdict("machine too busy: scheduling delays above %d ms (or stalled / never started helpers) in 3 attempts for %d of %d scripts, e.g. %s"
+                            % (JIT_LIMIT, len(unjudged), sum(plan_sizes), json.dumps(unjudged[0], sort_keys=True)))
+        log("%d of %d planned scripts could not be observed in three attempts and are not judged (machine busy), e.g. %s"
+            % (len(unjudged), sum(plan_sizes), json.dumps(unjudged[0], sort_keys=True)))
     need = ["early", "blocked", "blocked-killed", "boundary"]
     if any(runner.classes.get(c, 0) == 0 for c in need) and not violations:
         raise NoVerdict("no observation in class(es) %s" % [c for c in need if runner.classes.get(c, 0) == 0])
@@ -480,7 +488,7 @@ def check(ctx):
         l2_model=dict(distinct_states=l2_states, deadline_ticks=model_ds, tick_ms=TICK, outcomes_emitted=len(outcomes),
                       background_variant_states=res_bg.distinct),
         plan_sizes=plan_sizes, runT_calls=runner.runt_calls, scripts_through_testscript_Run=runner.via_scripts, classes=runner.classes, noisy_runs_not_judged=runner.noisy, helpers_unobservable=runner.unobserved,
-        observations_with_failed_law=len(misses), transient_misses=transient[:5], transient_total=len(transient),
+        observations_with_failed_law=len(misses), scripts_not_judged=len(unjudged), scripts_not_judged_sample=unjudged[:3], transient_misses=transient[:5], transient_total=len(transient),
         unreproduced_misses=unreproduced[:5], unreproduced_total=len(unreproduced),
         unjudged_similar_misses=skipped,
         interrupt_lateness_ms=dict(min=lat[0], median=lat[len(lat) // 2], max=lat[-1]) if lat else {},
